@@ -276,6 +276,11 @@ class _CanonTernary(ast.NodeTransformer):
             if isinstance(v, list) and v and isinstance(v[0], ast.stmt):
                 out = []
                 for st in v:
+                    if isinstance(st, ast.Return) and isinstance(st.value, ast.IfExp):
+                        a = ast.copy_location(ast.Return(value=st.value.body), st)
+                        b = ast.copy_location(ast.Return(value=st.value.orelse), st)
+                        out.append(ast.copy_location(ast.If(test=st.value.test, body=[a], orelse=[b]), st))
+                        continue
                     if isinstance(st, ast.Assign) and isinstance(st.value, ast.IfExp) and len(st.targets) == 1 \
                             and (isinstance(st.targets[0], ast.Name) or (isinstance(st.targets[0], ast.Attribute)
                                                                       and isinstance(st.targets[0].value, ast.Name))):
@@ -416,6 +421,7 @@ class Program:
         for m in modules:
             self._load(m)
         self._register_signatures()
+        self._canon_kwargs()
 
     # ------------------------------------------------------------------ load
     def _load(self, name: str) -> None:
@@ -427,7 +433,7 @@ class Program:
             from .inline import inline_unknown_helpers
             tree, self.inlined_helpers[name] = inline_unknown_helpers(name, tree)
             tree = ast.fix_missing_locations(_CanonRet().visit(_CanonAug().visit(_CanonAnn().visit(tree))))
-            tree = ast.fix_missing_locations(_CanonAug().visit(_CanonLoops().visit(_CanonTernary().visit(_CanonInline().visit(tree)))))
+            tree = ast.fix_missing_locations(_CanonAug().visit(_CanonLoops().visit(_CanonInline().visit(_CanonTernary().visit(tree)))))
         except (OSError, SyntaxError) as e:
             raise AnalysisError(f'cannot parse {path}: {e}') from e
         mi = ModuleInfo(
@@ -563,6 +569,11 @@ class Program:
             sig = None
             if isinstance(f, ast.Attribute) and isinstance(f.value, ast.Name) and f.value.id in ('self', 'cls') and ci is not None:
                 m = self.resolve_method(ci, f.attr)
+                if m is not None and not m.is_property:
+                    sig = self._signature(m.node, bound=not m.is_staticmethod)
+            elif isinstance(f, ast.Attribute) and isinstance(f.value, ast.Call) and isinstance(f.value.func, ast.Name) \
+                    and f.value.func.id == 'super' and ci is not None:
+                m = self.resolve_method(ci, f.attr, after=ci)
                 if m is not None and not m.is_property:
                     sig = self._signature(m.node, bound=not m.is_staticmethod)
             elif isinstance(f, ast.Name):
